@@ -3,7 +3,14 @@
 clauses of the statement that are not claimed."""
 
 PROPS = {
-    'C17': {'scans': [], 'trusted': [], 'bounded': [], 'not_claimed': []},
+    'C17': {'scans': [], 'trusted': [],
+            'bounded': [{'name': 'launcher_task_search', 'recipe': 'launcher_tasks',
+                         'functions': 'ProcessLauncher.__call__ / _launch / _create / _continue end to end against recording stand-ins '
+                                      '(coroutine scheduling and the replies are outside the contracts)',
+                         'bound': 'launch / create: persist x nowait x persister given x init args x init kwargs x entry point (64 x 2); continue: '
+                                  'nowait x persister x tag x entry point x load context (32); continue from a checkpoint that does not exist '
+                                  '(16); unknown task; failing process'}],
+            'not_claimed': []},
     'C16': {'scans': [], 'trusted': [],
             'bounded': [{'name': 'remote_vs_direct_search', 'recipe': 'remote_equals_direct',
                          'functions': 'Process._schedule_rpc.<run_callback> (reply = flattened outcome of the scheduled call), init() subscriptions '
@@ -62,7 +69,13 @@ PROPS = {
             'not_claimed': ['equality of the resumed and the uninterrupted run is shown per stepper (representation invariant + '
                             'save/load contracts); the composition over the whole run is covered by the bounded search only']},
     'C09': {'scans': [], 'trusted': [], 'bounded': [], 'not_claimed': []},
-    'C18': {'scans': ['user_code_runs_in_scope', 'hooks_run_in_scope'], 'trusted': [], 'bounded': [], 'not_claimed': []},
+    'C18': {'scans': ['user_code_runs_in_scope', 'hooks_run_in_scope'], 'trusted': [],
+            'bounded': [{'name': 'scope_search', 'recipe': 'process_scope',
+                         'functions': 'Process.current / _process_scope across concurrently stepping and nested processes (task-local '
+                                      'context variables: asyncio, trusted in the contracts)',
+                         'bound': '2 concurrently stepping processes, each running a nested process re-entrantly, sampled before / after an '
+                                  'await, in a continuation, in a call_soon callback and in a callback that runs after the last step'}],
+            'not_claimed': []},
     'C02': {'scans': [], 'trusted': [],
             'bounded': [{'name': 'control_history_search', 'recipe': 'control_histories', 'args': {'claims': ['C02']},
                          'functions': 'outcome reports of a process killed inside a step (deferred kill path through Process.step)',
@@ -109,7 +122,13 @@ PROPS = {
             'not_claimed': ['PicklePersister is covered by the bounded comparison only']},
     'C20': {'scans': [], 'trusted': [], 'bounded': [], 'not_claimed': []},
     'C15': {'scans': [], 'trusted': [],
-            'bounded': [{'name': 'exposed_ports_are_copies', 'recipe': 'absorb_independent',
+            'bounded': [{'name': 'expose_call_sequences', 'recipe': 'expose_calls',
+                         'functions': 'ProcessSpec.expose_inputs / expose_outputs / _expose_ports (class objects as dictionary keys, '
+                                      'defaultdict memory: outside the verifier) on top of absorb',
+                         'bound': 'inputs / outputs x 2 calls x 5 rules each x namespaces {top level, base, deep.er} x same / different '
+                                  'source class x namespace options on the second call: the destination holds the union of what each call '
+                                  'selects and the options of every call are applied; exclude+include together refused'},
+                        {'name': 'exposed_ports_are_copies', 'recipe': 'absorb_independent',
                          'functions': 'independence of the exposed tree AT EVERY DEPTH (object identity of nested ports and namespaces; the '
                                       'contract of absorb states freshness for the level it builds, the recursion is by its own contract)',
                          'bound': 'one source tree of depth 3 x 9 include/exclude selections: no exposed port object is a source object, later '
